@@ -387,6 +387,7 @@ func genWCNF(t *rapid.T) WCNFCase {
 	c.Layout.Wide = gen.Chance(t, 1, 3, "wide")
 	c.Layout.CRLF = gen.Chance(t, 1, 4, "crlf")
 	c.Layout.NoFinalNL = gen.Chance(t, 1, 4, "noFinalNL")
+	c.Layout.OverTop = c.Top > 0 && gen.Chance(t, 1, 3, "overTop")
 	return c
 }
 
